@@ -106,3 +106,21 @@ def sibling_countries(o, cc, bban):
         if c != cc and o.bban_length(c) == len(bban) and matches_structure(o.toks[c], bban):
             out.append(c)
     return sorted(out)
+
+
+def cross_class_touch(text, cc_hint="DE"):
+    """Build objects of the OTHER classes from the same text (unvalidated) and read their public properties: what one class
+    remembers about a text must not leak into another class's judgement of it (results depend on arguments only)."""
+    from schwifty import BBAN, BIC, IBAN
+    for make in (lambda: IBAN(text, allow_invalid=True), lambda: BIC(text, allow_invalid=True), lambda: BBAN(cc_hint, text)):
+        try:
+            o = make()
+        except Exception:  # noqa: BLE001
+            continue
+        for name in dir(type(o)):
+            if name.startswith("_") or not isinstance(getattr(type(o), name, None), property):
+                continue
+            try:
+                getattr(o, name)
+            except Exception:  # noqa: BLE001
+                pass
